@@ -24,7 +24,7 @@ git stash pop -q
 rm -f "$DEMO"
 echo "== build + full suite WITH change (must pass)" >>$LOG
 go build ./... >>$LOG 2>&1; B=$?
-go test -vet=off -count=1 -timeout 25m ./... >>$LOG 2>&1; S=$?
+go test -vet=off -count=1 -timeout 8m ./... >>$LOG 2>&1; S=$?
 echo "with=$WITH without=$WITHOUT build=$B suite=$S" | tee -a $LOG
 if [ $WITH -ne 0 ] && [ $WITHOUT -eq 0 ] && [ $B -eq 0 ] && [ $S -eq 0 ]; then
   D=/verif/seeded/$ID/$NAME; mkdir -p $D
